@@ -44,6 +44,13 @@ def run(ck):
     ck.cov["token_derivation"] = {"session_id": tk["session_id"], "counter": tk["counter"]}
     if tk["derived_token_accepted"]:
         ck.violation("C11:token-derivable-from-disclosed-session-id", tk["derived_token_accepted"], tk)
+    # the channel pairing as a design, with the two as-found variants as negative controls
+    ck.model(ck.tlc("auth", "MCWspJoin", "WspFixed.cfg", label="WSP channel pairing: JOIN bound to user and path, session stored before INIT is answered"))
+    for cfg, inv, label in (("WspNegBind.cfg", "OnlyOwnMedia", "as found before b6695a6: any socket naming an existing channel is attached"),
+                            ("WspNegStore.cfg", "LegitimateJoinSucceeds", "as found before 54d8ff5: INIT answered before the session is stored")):
+        neg = ck.tlc("auth", "MCWspJoin", cfg, must_pass=False, label="negative control: " + label)
+        if inv not in neg.violated:
+            raise Infra("negative control %s does not violate %s" % (cfg, inv))
     # a data socket must not be joinable to somebody else's WSP session through identifiers the server discloses
     out3 = os.path.join(ck.tmp, "c11_wsp.json")
     ck.run_driver("./c11", "^TestWspJoin$", {"VERIF_OUT": out3})
